@@ -16,9 +16,13 @@ def _snapshot():
             if isinstance(v, type):
                 if getattr(v, "__module__", "").startswith("rtflite"):
                     for ck, cv in list(vars(v).items()):
-                        if isinstance(cv, (dict, list, set)) and not ck.startswith("__") and not ck.startswith("model_") \
-                                and not ck.startswith("_abc") and ck not in ("__annotations__",):
+                        if ck.startswith("__") or ck.startswith("model_") or ck.startswith("_abc"):
+                            continue
+                        if isinstance(cv, (dict, list, set)):
                             snap["%s.%s.%s" % (mname, k, ck)] = repr(cv)[:2000]
+                        elif hasattr(cv, "__dict__") and type(cv).__module__.startswith("rtflite") and not isinstance(cv, type):
+                            # a class-level instance (e.g. a shared encoder): its attributes are process-global state
+                            snap["%s.%s.%s" % (mname, k, ck)] = repr(sorted((a, repr(b)[:200]) for a, b in vars(cv).items()))[:2000]
                 continue
             if isinstance(v, (dict, list, set)):
                 if len(repr(v)) < 5000:
@@ -88,8 +92,8 @@ def census(tier="quick"):
                     changed_after.add(k)
     finally:
         shutil.rmtree(figdir, ignore_errors=True)
-    known = ("color", "StrategyRegistry")
-    unmodelled = sorted(k for k in (changed_during | changed_after) if not any(x in k for x in known))
+    known = ("<color context visible to this thread>", "rtflite.pagination.strategies.registry.StrategyRegistry._strategies")
+    unmodelled = sorted(k for k in (changed_during | changed_after) if k not in known)
     out = {"paths": 3, "queries": 0, "solver_s": 0.0,
            "samples": [{"changed_while_encoding": sorted(changed_during), "still_changed_after": sorted(changed_after),
                         "visible_to_another_thread": sorted(visible)}],
